@@ -500,6 +500,34 @@ func c01Main(r *run.Runner) {
 			})
 		})
 	}
+	// parentheses and depth never change whether compilation terminates or whether the output is valid SQL
+	type dn struct{ i, j, depth int }
+	var deeps []dn
+	for i := range c12Wrappers {
+		for j := range c12Wrappers {
+			for _, d := range []int{12, 40} {
+				deeps = append(deeps, dn{i, j, d})
+			}
+		}
+	}
+	r.Sweep("deep-nesting-terminates", int64(len(deeps)), func(w *run.Worker, item int64) {
+		d := deeps[item]
+		src := "T | where " + nestWrappers(d.i, d.j, d.depth, "a")
+		w.Begin("expr-terminates", src)
+		var sql string
+		var err error
+		if !w.Try(src, func() { sql, err = pql.Compile(src) }) {
+			return
+		}
+		w.Nontrivial()
+		if err != nil {
+			w.Fail("rejected:deep:"+c12Wrappers[d.i].name, src, "well-formed nested expression rejected: "+err.Error(), nil)
+			return
+		}
+		if _, _, perr := sqlx.ParseStatement(sql, sqlx.ClickHouse); perr != nil {
+			w.Fail("invalid-sql:deep:"+c12Wrappers[d.i].name, src, fmt.Sprintf("output is not valid SQL: %v", perr), nil)
+		}
+	})
 	// leaf kinds
 	r.Sweep("leaf-kinds", 3, func(w *run.Worker, item int64) {
 		st := getState(w)
@@ -694,6 +722,16 @@ func c01LeafKinds(w *run.Worker, st *c01State, shapes *gen.Shapes, n int) {
 }
 
 func c01Replay(w *run.Worker, v *run.Viol) {
+	if v.Check == "expr-terminates" {
+		w.Begin("expr-terminates", v.Source)
+		sql, err := pql.Compile(v.Source)
+		if err != nil {
+			w.Fail(v.Sig, v.Source, err.Error(), nil)
+		} else if _, _, perr := sqlx.ParseStatement(sql, sqlx.ClickHouse); perr != nil {
+			w.Fail(v.Sig, v.Source, perr.Error(), nil)
+		}
+		return
+	}
 	posName, _ := v.Extra["pos"].(string)
 	exprText, _ := v.Extra["expr"].(string)
 	tree, err := gen.ReadExpr(exprText)
